@@ -142,6 +142,7 @@ static void runScenario(const std::string& prop, size_t idx, const Scenario& sc,
   ex.budget[K_DEV] = sc.k + b.dev; ex.budget[K_CHUNK] = sc.c + b.chunk; ex.budget[K_REQ] = sc.r;
   ex.useHash = replay == nullptr;
   ex.collectOnly = !b.hash;
+  if (sc.unbounded) ex.hashBudgetMask = 1u << K_REQ;  // A-mode: only the fault budget is a real bound
   auto body = [&](vp::Explorer& e) {
     VSink sink;
     World w(sc, e);
@@ -151,6 +152,8 @@ static void runScenario(const std::string& prop, size_t idx, const Scenario& sc,
     g_curProp = &prop; g_curIdx = idx; g_curEx = &e; g_inRun = true;
     w.run();
     g_inRun = false;
+    if (w.capHit && prop == "C20") sink.add("C20/step-budget-exceeded", "the handler loop did not come to rest within the step budget");
+    if (w.leaked != 0 && prop == "C20") sink.add("C20/leaked-request", std::to_string(w.leaked) + " request object(s) leaked");
     if (w.leaked != 0 && prop == "C04") sink.add("C04/leaked-request", std::to_string(w.leaked) + " self-deleting request object(s) were neither deleted by the handler nor left in its queues");
     R.transitions += w.reads;
     if (w.capHit) R.cap("step cap hit in scenario " + sc.name);
@@ -504,6 +507,54 @@ static std::vector<Scenario> scenariosC04(bool thorough, const vp::Args& A) {
   return v;
 }
 
+
+// ---- C20 (bus part): alphabet-closed arbitrary traffic under sanitizers ----
+static const char* C20_PROBE = "10fe070400";
+static std::vector<Scenario> scenariosC20(bool thorough, const vp::Args& A) {
+  std::vector<Scenario> v;
+  int L0 = (int)A.getInt("len", thorough ? 8 : 7);
+  for (int enh = 0; enh < 2; enh++) {
+    for (int cfg = 0; cfg < 5; cfg++) {
+      int L = L0 + ((thorough && (cfg == 0 || cfg == 2)) ? 1 : 0);
+      Scenario s;
+      s.enhanced = enh;
+      s.alphabet = Bytes{0xA9, 0x00, 0x01, 0xFF, 0x10, 0x36, 0xFE, 0x05};
+      s.insertDrop = false;
+      s.chunking = false;
+      s.longSilence = (cfg == 1);
+      s.preSyns = L;
+      s.gapSyns = 1;
+      s.tailSyns = 2;
+      s.foreign.push_back(telScript(mk(C20_PROBE)));
+      s.freezeAtLastScript = true;
+      s.k = 100; s.c = 100; s.r = 1; s.unbounded = true;
+      s.contenders = Bytes{0x10};
+      switch (cfg) {
+        case 0: break;                                  // passive
+        case 1: s.genSyn = true; s.lockCount = 3; break;
+        case 2:                                         // answering for the own slave address and a foreign one
+          s.answer = true;
+          s.answers.push_back(AnswerSpec{-1, 0x36, 0xfe, 0x05, Bytes{}, ref::unhex("0136")});
+          s.answers.push_back(AnswerSpec{-1, 0x36, 0x05, 0x36, Bytes{0x10}, ref::unhex("02a9aa")});
+          s.answers.push_back(AnswerSpec{0x10, 0x05, 0x36, 0xfe, Bytes{0x05, 0x36, 0x10, 0x00}, ref::unhex("00")});
+          break;
+        case 3: {                                       // a pending request (restarting once) and a fire-and-forget one
+          ReqSpec q; q.master = ref::unhex("3136fe0501a9"); q.responder = responder(q.master, ref::unhex("0105"), 0); q.restarts = 1; q.kind = 1; s.reqs.push_back(q);
+          ReqSpec q2; q2.master = ref::unhex("31fe050100"); q2.responder = responder(q2.master, Bytes{}, 0); q2.kind = 0; s.reqs.push_back(q2);
+          break;
+        }
+        case 4: s.faults = true;           // read/write errors and reopen failures as symbols
+          { ReqSpec q; q.master = ref::unhex("3136fe0500"); q.responder = responder(q.master, ref::unhex("00"), 0); q.kind = 1; s.reqs.push_back(q); }
+          break;
+      }
+      s.slices = (int)A.getInt("slices", thorough ? 3 : 2);
+      s.name = std::string(enh ? "enh" : "plain") + "/cfg" + std::to_string(cfg) + "/len" + std::to_string(L);
+      v.push_back(s);
+    }
+  }
+  return v;
+}
+
 // ---- C01 ----
 static std::vector<Scenario> scenariosC01(bool thorough, const vp::Args& A) {
   std::vector<Scenario> v;
@@ -578,6 +629,9 @@ int main(int argc, char** argv) {
   } else if (prop == "C04") {
     scs = scenariosC04(th, A);
     mf = [](World& w, VSink* s) { return std::vector<Monitor*>{new CompletionMonitor(s, &w)}; };
+  } else if (prop == "C20") {
+    scs = scenariosC20(th, A);
+    mf = [](World& w, VSink* s) { return std::vector<Monitor*>{new ProbeMonitor(s, ref::unhex(C20_PROBE))}; };
   } else if (prop == "C15") {
     scs = scenariosC15(th, A);
     mf = [](World& w, VSink* s) { return std::vector<Monitor*>{new AnswerMonitor(s, w.sc)}; };
